@@ -24,7 +24,7 @@ ASSUMPTIONS = [
     "p = 0 is exempt (the code defines est(0) = 0)",
 ]
 STEPS = [(0, 0, 0), (3, 0, 0), (0, 3, 1), (10, 3, 0), (3, 10, 2), (-2, 0, 0), (3, -2, 0), (0, 0, 3), (10, 10, 0), (10, -1, 0), (3, -3, 0), (-3, 0, 0), (0, 0, -3)]
-FIRST = [(0, 0, 0), (5, 3, 1)]
+FIRST = [(0, 0, 0), (5, 3, 1), (500, 400, 100)]  # the third: later revisions by a few votes are a fraction of a percent
 LATEST = [40.0, 93.5, 100.0, 104.2]  # turnout can come in above the expected vote
 SELFCHECK_INDEX = 2
 
